@@ -178,6 +178,18 @@ impl Runner {
                 self.w
                     .log(json!({"ev":"Blackhole","t":t,"n":n,"on":self.blackhole[n]}));
             }
+            "drop_inflight" => {
+                // lose one datagram currently in flight (chosen by index modulo count)
+                let k = s["k"].as_u64().unwrap_or(0) as usize;
+                let t = self.w.now_us;
+                if self.w.net.is_empty() {
+                    self.w.log(json!({"ev":"DropInflight","t":t,"ok":false}));
+                } else {
+                    let i = k % self.w.net.len();
+                    let d = self.w.net.swap_remove(i);
+                    self.w.log(json!({"ev":"DropInflight","t":t,"ok":true,"id":d.id}));
+                }
+            }
             "set" => {
                 let key = s["key"].as_str().unwrap();
                 let v = s["v"].as_u64().unwrap();
